@@ -290,7 +290,7 @@ func c08Run(r *report.Run, c c08Case) {
 func runC08(r *report.Run) {
 	r.SetRule("chains of generated data files (each next file: ~15% of the lines removed, some duplicated, records of another generated file added, records added under keys that already hold values, fresh subnets so that '!' range points churn; lines shuffled); every file is preprocessed with the dnsrocks-preproc codec settings and one fixed serial; the multiset line difference is rendered as -/+ lines in random order and applied with the real RDB.ApplyDiff to the RocksDB compiled from the previous file (v1 and v2 keys); the raw dump must equal the dump of a fresh compile of the next file. Before each step broken variants of the diff (delete an absent value, malformed line, bad operation, excess deletes) must fail and leave the dump unchanged. non-trivial = applied step; distinct by (chain seed, key layout, step)")
 	r.Assume("value order under one key is not compared (multiset), as the statement says")
-	nchains := r.Pick(30, 1000)
+	nchains := r.Pick(16, 600)
 	for i := 0; i < nchains; i++ {
 		steps := 3
 		if i%5 == 0 {
